@@ -39,8 +39,28 @@ func (c C16Case) expandRuns(env *model.Env, pkg *model.Package) []RTRun {
 	for _, r := range c.Runs {
 		nr := RTRun{Proto: r.Proto, Steps: append([]value.StepValues{}, r.Steps...)}
 		proto := pkg.Find(r.Proto)
+		// prefer a step whose items hold fixed-width data (floats, complex numbers, strings): those
+		// are read with a minimum byte count, unlike variable-length integers
+		pick := -1
 		for i, st := range nr.Steps {
 			if st.Stream && len(st.Items) > 0 {
+				if pick < 0 {
+					pick = i
+				}
+				fixed := false
+				model.Walk(env.Underlying(proto.Fields[i].Type.Elem), func(x *model.Type) {
+					if x.Kind == model.KPrim && (strings.HasPrefix(x.Prim, "float") || strings.HasPrefix(x.Prim, "complex") || x.Prim == "string") {
+						fixed = true
+					}
+				})
+				if fixed {
+					pick = i
+					break
+				}
+			}
+		}
+		for i, st := range nr.Steps {
+			if i == pick {
 				w := &ref.Writer{}
 				for _, it := range st.Items {
 					ref.EncodeValue(w, env, proto.Fields[i].Type.Elem, it)
@@ -62,7 +82,7 @@ func (c C16Case) expandRuns(env *model.Env, pkg *model.Package) []RTRun {
 	return out
 }
 
-const c16Rule = "valid reference-encoded streams (binary and NDJSON) of generated packages x cut positions: every prefix length when the stream has at most 400 bytes after the header plus 8 positions inside the header; otherwise positions within 3 bytes of every value start (of a sample of them and of all those near a buffer boundary when there are more than 400), within 12 bytes of every multiple of 65536 and 120 generated positions; in a third of the cases (binary only) a stream step's items are repeated until its encoding exceeds 66-140 kB, so that the stream spans several 64 KiB reader buffers. Each prefix is read by the generated reader (Python; C++ built with AddressSanitizer and UBSan) copying into a generated NDJSON writer. oracle: binary - every strict prefix must end in an error; NDJSON - an error unless the prefix is itself a complete stream under the documented grammar; the values delivered before the error are exactly a prefix of the original values; no sanitizer report, no crash, no hang. non-trivial = the cut lies after the header (inside a value, a length-prefixed container or a stream block); distinct = (model, values, cut position)"
+const c16Rule = "valid reference-encoded streams (binary and NDJSON) of generated packages x cut positions: every prefix length when the stream has at most 400 bytes after the header plus 8 positions inside the header; otherwise positions within 3 bytes of every value start (of a sample of them and of all those near a buffer boundary when there are more than 400), within 12 bytes of every multiple of 65536 and 120 generated positions; in a third of the cases strings of 1-3 buffer lengths and vectors of 9000-25000 elements are drawn often, in another third (binary only) a stream step's items are repeated until its encoding exceeds 66-140 kB, so that the stream spans several 64 KiB reader buffers. Each prefix is read by the generated reader (Python; C++ built with AddressSanitizer and UBSan) copying into a generated NDJSON writer. oracle: binary - every strict prefix must end in an error; NDJSON - an error unless the prefix is itself a complete stream under the documented grammar; the values delivered before the error are exactly a prefix of the original values; no sanitizer report, no crash, no hang. non-trivial = the cut lies after the header (inside a value, a length-prefixed container or a stream block); distinct = (model, values, cut position)"
 
 // flatten lists (step index, value) in the order values appear in a stream.
 type flatVal struct {
@@ -373,9 +393,10 @@ func TestC16(t *testing.T) {
 		applyRuntimeExclusions(&cfg)
 		cfg.MaxProtocols = 1
 		cfg.MaxSteps = 4
-		c := C16Case{RTCase: genRTCase(rt, &cfg, 1, valueOpts(value.GenOpts{Budget: 25, FiniteFloats: true, Big: true}, true), 5)}
+		mode := rapid.IntRange(0, 2).Draw(rt, "long") // 0: repeated items, 1: big values, else: as drawn
+		c := C16Case{RTCase: genRTCase(rt, &cfg, 1, valueOpts(value.GenOpts{Budget: 25, FiniteFloats: true, Big: true, BigBoost: mode == 1}, true), 5)}
 		c.Fracs = rapid.SliceOfN(rapid.IntRange(0, 999), 120, 120).Draw(rt, "fracs")
-		if rapid.IntRange(0, 2).Draw(rt, "long") == 0 {
+		if mode == 0 {
 			c.Repeat = rapid.SampledFrom([]int{66000, 70000, 140000}).Draw(rt, "repeat")
 		}
 		rec.Sample(map[string]any{"model": core.Trunc(modelText(c.Pkg), 400)})
